@@ -2001,6 +2001,7 @@ func init() {
 		e := fr.e
 		v := argRV(a[0])
 		e.mustKind(v, "reflect.Value.TryRecv", reflect.Chan)
+		e.schedPoint("recv") // (another goroutine may act between a preceding check and this attempt)
 		et := rvType(v).Underlying().(*types.Chan).Elem()
 		ch := e.rvLoad(v).(*channel)
 		if ch == nil || !ch.recvReady() {
@@ -2016,6 +2017,7 @@ func init() {
 		e := fr.e
 		v, x := argRV(a[0]), argRV(a[1])
 		e.mustKind(v, "reflect.Value.TrySend", reflect.Chan)
+		e.schedPoint("send")
 		et := rvType(v).Underlying().(*types.Chan).Elem()
 		if !assignable(rvType(x), et) {
 			reflectPanic("reflect.Value.TrySend: value of type %s is not assignable to type %s", typeString(rvType(x)), typeString(et))
